@@ -29,7 +29,7 @@ STUBS = ["glue/, iter/: codebasin.Path and codebasin.source.Path -> façade with
          "codebasin.pathspec.GitIgnoreSpec -> stub returning a symbolic verdict and recording the path it was asked about"]
 ASSUMPTIONS = ["gitignore pattern semantics (pathspec vs `git check-ignore`) are NOT checked: third-party regex code",
                "real directory walking (rglob) is replaced by a fixed listing in iter/; spelling/ uses the real file system untraced"]
-BOUNDS = {"quick": "glue/: all answer combinations for 2 directories and 8 extensions; iter/: 3 enumerated paths; ext/: all 38 extensions of "
+BOUNDS = {"quick": "glue/: all answer combinations for 2 directories and 8 extensions; iter/: 3 enumerated paths in all 6 enumeration orders; ext/: all 38 extensions of "
                    "both lists plus 6 foreign ones; spelling/: 9 file spellings x 4 spellings of the code-base directory x 3 exclude lists",
           "thorough": "same (exhausted)"}
 EXPLANATION = ("The environment's answers (exists, is_dir, containment per directory, pattern verdict) are symbolic bools; CrossHair exhausts "
@@ -140,24 +140,34 @@ def h_glue(ex: bool, isd: bool, e: int, r0: bool, r1: bool, m: bool) -> bool:
     return ok
 
 
-def h_iter(b0: bool, b1: bool, b2: bool) -> bool:
+def h_iter(b0: bool, b1: bool, b2: bool, eo: int) -> bool:
     """
+    pre: 0 <= eo < 6
     post: _
     """
+    import itertools
+
     import codebasin
 
     bits = [b0, b1, b2]
     names = ["/r/one/a.c", "/r/one/sub/b.h", "/r/one/c.cpp"]
+    order = None
+    for k, perm in enumerate(itertools.permutations(names)):
+        if eo == k:
+            order = list(perm)  # the order in which the file system enumerates the directory entries
 
     class FP:
         def __init__(self, p):
             self.p = str(p)
 
         def rglob(self, pat):
-            return [FP(n) for n in names] if self.p == "/r/one" else []
+            return [FP(n) for n in order] if self.p == "/r/one" else []
 
         def __str__(self):
             return self.p
+
+        def __lt__(self, other):  # as pathlib: component-wise
+            return self.p.split("/") < other.p.split("/")
 
     STATS["compared"] += 1
     if P.get("_twin"):
@@ -178,9 +188,10 @@ def h_iter(b0: bool, b1: bool, b2: bool) -> bool:
     finally:
         codebasin.Path = old_p
         codebasin.CodeBase.__contains__ = old_c
-    want = [n for n in names if member[n]]
+    # exactly the members, in an order that does not depend on the enumeration order of the file system
+    want = sorted([n for n in names if member[n]], key=lambda n: n.split("/"))
     if P.get("_replay"):
-        LAST.update(got=got, expected=want)
+        LAST.update(got=got, expected=want, enumeration_order=order)
     return got == want and all(isinstance(x, str) for x in got)
 
 
